@@ -162,6 +162,7 @@ type EnumEnv struct {
 	// how the enum is written in the source
 	ExplicitPrefix bool     // prefix = "..." is written
 	Unspecified    string   // explicit first option standing for 0 ("" = none)
+	Where          int      // where the enum is declared: 0 the file of the object, 1 another file of the package (foo/v1/e.j5s), 2 an imported package (bar.v1)
 	Desc           string   // description of the enum
 	OptDescs       []string // description per option (parallel to Options)
 	UnspecDesc     string
@@ -448,6 +449,34 @@ func (e EnumEnv) Coq() string {
 	return fmt.Sprintf("(EE %s %s %s)", vh.BytesTerm(e.Prefix), zero, strList(e.Options))
 }
 
+// the package of an enum declared outside the package under test (Where = 2)
+const enumPackage = "bar.v1"
+
+// RefName: how a field of the object under test names the enum
+func (e EnumEnv) RefName() string {
+	if e.Where == 2 {
+		return enumPackage + "." + e.Name
+	}
+	return e.Name
+}
+
+// ExtraFiles: the source file holding the enum when it is not declared next to the object
+func (e EnumEnv) ExtraFiles() map[string]string {
+	switch e.Where {
+	case 1:
+		return map[string]string{"foo/v1/e.j5s": "package foo.v1\n\n" + e.J5S()}
+	case 2:
+		return map[string]string{"bar/v1/e.j5s": "package " + enumPackage + "\n\n" + e.J5S()}
+	}
+	return nil
+}
+
+// SourceNote: the enum declaration as part of a reported input
+func (e EnumEnv) SourceNote() string {
+	where := [...]string{"same file as the object", "file foo/v1/e.j5s of the same package", "file bar/v1/e.j5s, package " + enumPackage + " (imported)"}[e.Where]
+	return "# enum declared in: " + where + "\n" + e.J5S()
+}
+
 // stdZero: the explicit zero option is spelled UNSPECIFIED (with or without the prefix)
 func (e EnumEnv) stdZero() bool {
 	return e.Unspecified == "UNSPECIFIED" || e.Unspecified == e.Prefix+"UNSPECIFIED"
@@ -550,7 +579,7 @@ func (t FTy) j5s(enum EnumEnv, prefix string) (tag string, lines []string) {
 			add("rules.const = %v", *t.Const)
 		}
 	case TEnum:
-		tag = "enum:" + enum.Name
+		tag = "enum:" + enum.RefName()
 		if r := t.Enum; r != nil {
 			if len(r.In) > 0 {
 				add("rules.in = %s", qList(r.In))
@@ -732,7 +761,12 @@ func File(enum EnumEnv, objName, objDesc string, props []Prop) string {
 func FileRoot(kind string, enum EnumEnv, objName, objDesc string, props []Prop) string {
 	var sb strings.Builder
 	sb.WriteString("package foo.v1\n\n")
-	sb.WriteString(enum.J5S())
+	switch enum.Where {
+	case 0:
+		sb.WriteString(enum.J5S())
+	case 2:
+		sb.WriteString("import " + enumPackage + "\n")
+	}
 	sb.WriteString("\nobject Bar {\n\tfield x string\n}\n\nobject Baz {\n\tfield y integer:INT32\n}\n\noneof Choice {\n\toption a string\n\toption b integer:INT32\n}\n\noneof Pick {\n\toption c string\n}\n\n")
 	fmt.Fprintf(&sb, "%s %s {\n", kind, objName)
 	if objDesc != "" {
